@@ -315,5 +315,8 @@ def run(ctx):
     rule_resolution(ctx, r5)
     r6 = ctx.rule("R6", "log cleaning removes only logs of targets that left the workflow, never when switched off or on a dry run", min_instances=3)
     rule_log_cleaning(ctx, r6)
+    from .evalhelpers import cached_witness, report_witness, run_command_witness
+    report_witness(r6, "src/gwf/plugins/run.py::run::witness-project", "src/gwf/plugins/run.py:1", cached_witness(ctx, "run", run_command_witness),
+                   "log cleaning removes exactly the logs of targets that left the workflow, none when switched off or on a dry run", select=lambda d: "log" in d or "ends with" in d)
     from .shared import rule_config_switch
     rule_config_switch(ctx, r6, "clean_logs", "`gwf run` decides whether to clean logs (config.get('clean_logs'))")
